@@ -7,6 +7,7 @@ package contractcourt
 
 //@ func (c *ChannelArbitrator) shouldGoOnChain
 //@   props C12
+//@   bounds-safe
 //@   let nw = htlc.RefundTimeout >= broadcastDelta
 //@   ensures  nw && result ==> currentHeight >= htlc.RefundTimeout - broadcastDelta
 //@   ensures  nw && htlc.Incoming ==> (result <==> currentHeight >= htlc.RefundTimeout - broadcastDelta)
@@ -18,6 +19,7 @@ package contractcourt
 //@
 //@ func (c *ChannelArbitrator) checkCommitChainActions
 //@   props C12
+//@   bounds-safe
 //@   loop * havoc
 //@   loop 0 step haveChainActions == (prev(haveChainActions) || ret(shouldGoOnChain, 0))
 //@   loop 1 step haveChainActions == (prev(haveChainActions) || (retn(isPreimageAvailable, 0) && ret(shouldGoOnChain, 1)))
@@ -37,6 +39,7 @@ package contractcourt
 //@
 //@ func (c *ChannelArbitrator) checkRemoteDanglingActions
 //@   props C12
+//@   bounds-safe
 //@   loop * havoc
 //@   site mapupdate remoteHTLCs: assert htlcSetKey.IsRemote && arg(key) == htlc.HtlcIndex
 //@   site mapupdate localHTLCs:  assert !htlcSetKey.IsRemote && arg(key) == htlc.HtlcIndex
@@ -50,6 +53,7 @@ package contractcourt
 //@
 //@ func (c *ChannelArbitrator) checkRemoteDiffActions
 //@   props C12
+//@   bounds-safe
 //@   loop * havoc
 //@   site mapupdate remoteHtlcs: assert arg(key) == htlc.HtlcIndex
 //@   site mapupdate actionMap: assert !ok &&
@@ -60,6 +64,7 @@ package contractcourt
 //@
 //@ func (c *ChannelArbitrator) checkLocalChainActions
 //@   props C12
+//@   bounds-safe
 //@   site call checkCommitChainActions: assert arg(height) == height && arg(trigger) == trigger &&
 //@        arg(htlcs) == activeHTLCs[LocalHtlcSet]
 //@   site call checkRemoteDanglingActions: assert arg(height) == height && arg(commitsConfirmed) == commitsConfirmed &&
@@ -68,6 +73,7 @@ package contractcourt
 //@
 //@ func (c *ChannelArbitrator) checkRemoteChainActions
 //@   props C12
+//@   bounds-safe
 //@   site call checkCommitChainActions: assert arg(height) == height && arg(trigger) == trigger &&
 //@        arg(htlcs) == ite(pendingConf, activeHTLCs[RemotePendingHtlcSet], activeHTLCs[RemoteHtlcSet])
 //@   site call checkRemoteDiffActions: assert arg(pendingConf) == pendingConf && arg(activeHTLCs) == activeHTLCs &&
@@ -76,6 +82,7 @@ package contractcourt
 //@
 //@ func (c *ChannelArbitrator) constructChainActions
 //@   props C12
+//@   bounds-safe
 //@   site call checkLocalChainActions: assert confCommitKey == LocalHtlcSet && arg(commitsConfirmed) &&
 //@        arg(height) == height && arg(trigger) == trigger && arg(activeHTLCs) == ret(toActiveHTLCSets)
 //@   site call checkRemoteChainActions nth 0: assert confCommitKey == RemoteHtlcSet && !arg(pendingConf) &&
@@ -85,6 +92,7 @@ package contractcourt
 //@
 //@ func (c *ChannelArbitrator) prepContractResolutions
 //@   props C12
+//@   bounds-safe
 //@   loop * havoc
 //@   site call newSuccessResolver:         assert htlcAction == HtlcClaimAction && ok && arg(htlc) == htlc && arg(res) == resolution &&
 //@        arg(broadcastHeight) == height && (htlc.OutputIndex >= 0 ==> htlcOp.Index == htlc.OutputIndex) && htlcOp.Hash == commitHash
@@ -117,6 +125,7 @@ package contractcourt
 //@
 //@ func (c *chainWatcher) handleKnownRemoteState
 //@   props C04 C12
+//@   bounds-safe
 //@   requires c.cfg.chanState != nil && commitSpend != nil
 //@   requires commitSpend.SpendingTx != nil ==> forallq(k, 0, len(commitSpend.SpendingTx.TxOut), commitSpend.SpendingTx.TxOut[k] != nil)
 //@   site call handlePossibleBreach: assert arg(1) == commitSpend && arg(2) == broadcastStateNum
@@ -127,6 +136,7 @@ package contractcourt
 //@
 //@ func (c *chainWatcher) handlePossibleBreach
 //@   props C04
+//@   bounds-safe
 //@   requires c.cfg.chanState != nil && commitSpend != nil
 //@   requires commitSpend.SpendingTx != nil ==> forallq(k, 0, len(commitSpend.SpendingTx.TxOut), commitSpend.SpendingTx.TxOut[k] != nil)
 //@   loop * havoc
@@ -139,6 +149,7 @@ package contractcourt
 //@
 //@ func (c *ChannelArbitrator) progressStateMachineAfterRestart
 //@   props C13 C12
+//@   bounds-safe
 //@   requires c.cfg.CloseType == channeldb.CooperativeClose || c.cfg.CloseType == channeldb.BreachClose ||
 //@            c.cfg.CloseType == channeldb.LocalForceClose || c.cfg.CloseType == channeldb.RemoteForceClose
 //@   let st0 = old(c.state)
@@ -155,6 +166,7 @@ package contractcourt
 //@
 //@ func (c *ChannelArbitrator) advanceState
 //@   props C13
+//@   bounds-safe
 //@   loop * havoc
 //@   site call stateStep: assert arg(1) == triggerHeight && arg(2) == trigger && arg(3) == confCommitSet
 //@   site call CommitState: assert arg(1) == retn(stateStep, 0) && retn(stateStep, 2) == nil && retn(stateStep, 0) != c.state
@@ -163,6 +175,7 @@ package contractcourt
 //@
 //@ func (c *ChannelArbitrator) handleRemoteForceCloseEvent
 //@   props C13
+//@   bounds-safe
 //@   requires closeInfo != nil
 //@   site call InsertConfirmedCommitSet: assert ret(LogContractResolutions) == nil && arg(1) == addr(closeInfo.CommitSet)
 //@   site call MarkChannelClosed: assert ret(LogContractResolutions) == nil && ret(InsertConfirmedCommitSet) == nil
@@ -171,6 +184,7 @@ package contractcourt
 //@
 //@ func (c *ChannelArbitrator) handleLocalForceCloseEvent
 //@   props C13
+//@   bounds-safe
 //@   requires closeInfo != nil
 //@   site call InsertConfirmedCommitSet: assert ret(LogContractResolutions) == nil && arg(1) == addr(closeInfo.CommitSet)
 //@   site call MarkChannelClosed: assert ret(LogContractResolutions) == nil && ret(InsertConfirmedCommitSet) == nil
@@ -179,6 +193,7 @@ package contractcourt
 //@
 //@ func (c *ChannelArbitrator) handleContractBreach
 //@   props C13
+//@   bounds-safe
 //@   requires breachInfo != nil
 //@   site call InsertConfirmedCommitSet: assert ret(LogContractResolutions) == nil && arg(1) == addr(breachInfo.CommitSet)
 //@   site call MarkChannelClosed: assert ret(LogContractResolutions) == nil && ret(InsertConfirmedCommitSet) == nil
@@ -186,6 +201,7 @@ package contractcourt
 //@
 //@ func (c *ChannelArbitrator) resolveContract
 //@   props C13
+//@   bounds-safe
 //@   loop * havoc
 //@   site call SwapContract: assert retn(Resolve, 1) == nil && arg(2) == retn(Resolve, 0) && retn(Resolve, 0) != nil
 //@   site call replaceResolver: assert arg(2) == retn(Resolve, 0) && called(SwapContract)
@@ -193,6 +209,7 @@ package contractcourt
 //@
 //@ func (c *ChannelArbitrator) stateStep
 //@   props C13 C12
+//@   bounds-safe
 //@   loop * havoc
 //@   // upstream fail-backs: dust before broadcast; after confirmation the breached set (remote commitments, outgoing only)
 //@   // or, when not breached, final-fail of incoming dust plus the dangling set
@@ -221,6 +238,7 @@ package contractcourt
 //@
 //@ func (c *ChannelArbitrator) relaunchResolvers
 //@   props C13
+//@   bounds-safe
 //@   loop * havoc
 //@   site mapupdate htlcMap: assert arg(key).Hash == retn(FetchContractResolutions, 0).CommitHash &&
 //@        ((commitSet != nil && commitSet.ConfCommitKey.isSome) ==>
@@ -230,6 +248,7 @@ package contractcourt
 //@
 //@ func (b *boltArbitratorLog) writeResolver
 //@   props C13
+//@   bounds-safe
 //@   site call Put: assert arg(1) == ret(ResolverKey) && ret(Encode) == nil && ret(ResolverKey) != nil
 //@   site call Encode: assert arg(0) == res
 //@   site call Write: assert true
@@ -237,6 +256,7 @@ package contractcourt
 //@
 //@ func (b *boltArbitratorLog) InsertUnresolvedContracts$1
 //@   props C13
+//@   bounds-safe
 //@   loop * havoc
 //@   loop 0 step called(writeResolver) && ret(writeResolver) == nil
 //@   site call writeResolver: assert arg(1) == retn(fetchContractWriteBucket, 0) && arg(2) == resolver && retn(fetchContractWriteBucket, 1) == nil
@@ -244,20 +264,24 @@ package contractcourt
 //@
 //@ func (b *boltArbitratorLog) SwapContract$1
 //@   props C13
+//@   bounds-safe
 //@   site call Delete: assert arg(1) == ret(ResolverKey) && retn(fetchContractWriteBucket, 1) == nil
 //@   site call writeResolver: assert ret(Delete) == nil && arg(2) == newContract
 //@
 //@ func (b *boltArbitratorLog) ResolveContract$1
 //@   props C13
+//@   bounds-safe
 //@   site call Delete: assert arg(1) == ret(ResolverKey) && retn(fetchContractWriteBucket, 1) == nil
 //@
 //@ func (bo *breachedOutput) BlocksToMaturity
 //@   props C04
+//@   bounds-safe
 //@   ensures result == ite(bo.witnessType == input.CommitmentToRemoteConfirmed || bo.witnessType == input.TaprootRemoteCommitSpend ||
 //@           bo.witnessType == input.TaprootRemoteCommitSpendFinal, 1, 0)
 //@
 //@ func (c *ChannelArbitrator) abandonForwards
 //@   props C12
+//@   bounds-safe
 //@   loop * havoc
 //@   site store ResolutionMsg.SourceChan: assert value == c.cfg.ShortChanID
 //@   site store ResolutionMsg.HtlcIndex: assert value == idx
@@ -268,6 +292,7 @@ package contractcourt
 //@
 //@ func (c *ChannelArbitrator) failIncomingDust
 //@   props C12
+//@   bounds-safe
 //@   loop * havoc
 //@   site call PutFinalHtlcOutcome: assert htlc.Incoming && htlc.OutputIndex < 0 && arg(0) == c.cfg.ShortChanID && arg(1) == htlc.HtlcIndex && !arg(2)
 //@   site call NotifyFinalHtlcEvent: assert ret(PutFinalHtlcOutcome) == nil && arg(1).HtlcID == htlc.HtlcIndex && arg(1).ChanID == c.cfg.ShortChanID &&
@@ -276,6 +301,7 @@ package contractcourt
 //@
 //@ func (c *ChannelArbitrator) isPreimageAvailable
 //@   props C12
+//@   bounds-safe
 //@   site call LookupPreimage: assert arg(1) == hash
 //@   site call LookupInvoice: assert arg(2) == hash && !retn(LookupPreimage, 1)
 //@   site call Is nth 0: assert arg(0) == retn(LookupInvoice, 1) && arg(1) == invoices.ErrInvoiceNotFound
@@ -287,6 +313,7 @@ package contractcourt
 //@ // ---- (initiator's payment base point first)
 //@ func newChainWatcher
 //@   props C04
+//@   bounds-safe
 //@   loop * havoc
 //@   site call DeriveStateHintObfuscator nth 0: assert cfg.chanState.IsInitiator &&
 //@        arg(0) == cfg.chanState.LocalChanCfg.PaymentBasePoint.PubKey && arg(1) == cfg.chanState.RemoteChanCfg.PaymentBasePoint.PubKey
@@ -297,6 +324,7 @@ package contractcourt
 //@ // ---- C04: what the retribution store persists for taproot outputs is what applyTaprootRetInfo puts back
 //@ func taprootBriefcaseFromRetInfo
 //@   props C04
+//@   bounds-safe
 //@   loop * havoc
 //@   site mapupdate BreachedHtlcTweaks: assert arg(key) == ret(newResolverID) && arg(val) == firstLevelTweak
 //@   site mapupdate BreachedSecondLevelHltcTweaks: assert arg(key) == ret(newResolverID) && arg(val) == bo.secondLevelTapTweak
@@ -306,6 +334,7 @@ package contractcourt
 //@
 //@ func applyTaprootRetInfo
 //@   props C04
+//@   bounds-safe
 //@   loop * havoc
 //@   site lookup BreachedHtlcTweaks: assert arg(key) == ret(newResolverID)
 //@   site lookup BreachedSecondLevelHltcTweaks: assert arg(key) == ret(newResolverID)
@@ -315,6 +344,7 @@ package contractcourt
 //@ // ---- resolver watches the outpoint that exists on chain
 //@ func (h *htlcSuccessResolver) resolveLegacySuccessTx
 //@   props C13
+//@   bounds-safe
 //@   site call IncubateOutputs: assert !h.outputIncubating && ret(PublishTx) == nil
 //@   site store htlcSuccessResolver.outputIncubating: assert value && called(IncubateOutputs) && ret(IncubateOutputs) == nil
 //@   site call Checkpoint: assert h.outputIncubating && called(IncubateOutputs) && ret(IncubateOutputs) == nil
@@ -322,6 +352,7 @@ package contractcourt
 //@
 //@ func (h *htlcTimeoutResolver) resolveTimeoutTx
 //@   props C13
+//@   bounds-safe
 //@   // the outpoint to watch is fixed BEFORE the incubating fast-forward: a resumed resolver of a re-signed (zero-fee) timeout
 //@   // tx watches the output of the transaction that actually confirmed
 //@   site call resolveTimeoutTxOutput nth 0: assert h.outputIncubating && retn(watchHtlcSpend, 1) == nil &&
